@@ -124,4 +124,56 @@ theorem incOnDA_onDA (g : GoodChain C.sync ch top) (dc : DistinctCommitments ch)
         have := dc.dcInj _ _ _ _ hbk' hb hne' he hcm'
         exact ⟨q, hq, hqd, sd, m, hcd, hm, this⟩
 
+/-! ## the P2P stores -/
+
+/-- block `k` is in the node's P2P stores at store height `k`: its header (admitted by
+`isUsingExpectedSingleSequencer`) in the header store and, unless the block is empty, its data in the data store -/
+def InStores (C : Cfg) (ch : PChain) (s : HSt) (k : Nat) : Prop :=
+  ∃ b, ch k = some b ∧
+    (∃ w o, s.hStore[k - C.sync.initialHeight]? = some (w, o) ∧ p2pAdmit o C.sync.proposerAddr w = true ∧
+      toSH C.key w = b.sh) ∧
+    (IsEmpty b ∨ s.dStore[k - C.sync.initialHeight]? = some b.data)
+
+/-- **convergence over the P2P stores**: both store loops have polled up to the store heights and everything is
+quiescent; then the node holds every height `h` such that all blocks up to `h` are in its P2P stores -/
+theorem p2p_converges (g : GoodChain C.sync ch top) {s : HSt} (hi : HInv true gr C ch h0 evs s)
+    (hc : s.hCur = C.sync.initialHeight - 1 + s.hStore.length) (dc' : s.dCur = C.sync.initialHeight - 1 + s.dStore.length)
+    (h : Nat) (hin : ∀ k, C.sync.initialHeight ≤ k → k ≤ h → InStores C ch s k) : h ≤ s.nd.full.store.height := by
+  have hinv : Inv C.sync ch h0 evs (eraseN s.nd.full) := ⟨hi.safe, (hi.live rfl).1, (hi.live rfl).2⟩
+  have hheight : (eraseN s.nd.full).store.height = s.nd.full.store.height := rfl
+  have hpos := g.ihPos
+  have hconv := hinv.converges h (fun k a b => by
+    by_cases hk : k ≤ s.nd.full.store.height
+    · exact hi.safe.sound k a (by rw [hheight]; exact hk)
+    · have hge : h0 ≤ (eraseN s.nd.full).store.height := hi.safe.ge
+      have hlow := hi.p2p.low
+      have hk1 : C.sync.initialHeight ≤ k := by omega
+      obtain ⟨blk, hb, ⟨w, o, hw, ha, hsh⟩, hdat⟩ := hin k hk1 b
+      have hlen : k - C.sync.initialHeight < s.hStore.length := by
+        have := (List.getElem?_eq_some_iff.mp hw).1; exact this
+      have e1 := hi.p2p.hdr k (by omega) (by rw [hc]; omega) w o hw ha
+      have hwk : w.header.height = k := by
+        have : (toSH C.key w).hdr = blk.sh.hdr := by rw [hsh]
+        rw [toSH_hdr] at this
+        rw [this]; exact (g.facts hb).height
+      rw [hwk] at e1
+      refine ⟨blk, hb, e1, ?_⟩
+      by_cases he : IsEmpty blk
+      · exact Or.inl he
+      · rcases hdat with he' | hd
+        · exact absurd he' he
+        · right
+          have hlen' : k - C.sync.initialHeight < s.dStore.length := (List.getElem?_eq_some_iff.mp hd).1
+          have e2 := hi.p2p.dat k (by omega) (by rw [dc']; omega) blk.data hd
+          have hne : blk.data.txs ≠ [] := fun h' => he ((g.empty_iff hb).mpr h')
+          cases hm : blk.data.metadata with
+          | none => exact absurd hm (g.hasMeta k blk hb hne)
+          | some m =>
+            rw [hm] at e2
+            simp only [Option.map_some, Option.getD_some] at e2
+            rw [(g.facts hb).metaH m hm] at e2
+            exact e2)
+  rw [hheight] at hconv
+  exact hconv
+
 end FullNode
